@@ -251,16 +251,6 @@ def f_window_without_arrange_after_arrange_verb(prog, idxs, ctx):
     return False
 
 
-def f_clip_on_non_numeric(prog, idxs, ctx):
-    for i in idxs:
-        for n in walk(prog["steps"][i]):
-            if n.get("k") == "fn" and n["op"] == "clip":
-                for b in n["a"][1:]:
-                    if b.get("k") == "lit" and (isinstance(b["v"], str | bool)) and b.get("ty") not in ("date", "datetime"):
-                        return True
-    return False
-
-
 def f_group_by_constant_column(prog, idxs, ctx):
     """group_by over a constant column, followed by summarize.  Constant: defined by a mutate from literals and
     other constant columns only (the static type carries `const` through column references, renames and joins)."""
@@ -368,7 +358,6 @@ FEATURES = {
     "literal_with_pyformat_placeholder": f_literal_with_pyformat_placeholder,
     "sqlite_date_to_datetime_compared": f_sqlite_date_to_datetime_compared,
     "group_by_constant_column": f_group_by_constant_column,
-    "clip_on_non_numeric": f_clip_on_non_numeric,
     "agg_or_window_over_constant": f_agg_or_window_over_constant,
     "ungrouped_summarize_aggregates_dropped": f_ungrouped_summarize_aggregates_dropped,
     "outer_join_nonstrict_computed_column": f_outer_join_nonstrict_computed_column,
